@@ -42,6 +42,22 @@ theorem c16_txn (H : Str → Str) (ex : List Str) (reqBody respBody : Input) :
   simp only [holdsTxn, runTxn, Bool.and_eq_true]
   exact ⟨c16_outcome H .req ex reqBody, c16_outcome H .resp ex respBody⟩
 
+/-- Overlapping calls (re-entrant or concurrent): every answer satisfies the property for its own body
+    and exclusions. -/
+theorem c16_many (H : Str → Str) (calls : List (List Str × Input)) :
+    holdsMany H calls (runMany H calls) = true := by
+  induction calls with
+  | nil => rfl
+  | cons c cs ih =>
+    simp only [runMany, List.map_cons, holdsMany, Bool.and_eq_true]
+    exact ⟨c16_outcome H .raw c.1 c.2, ih⟩
+
+/-- Purity: the answer of the i-th of several overlapping calls is what that call returns alone; it
+    does not depend on any other call. -/
+theorem c16_calls_independent (H : Str → Str) (calls : List (List Str × Input)) (i : Nat) :
+    (runMany H calls)[i]? = calls[i]?.map (fun c => run H .raw c.1 c.2) := by
+  simp [runMany]
+
 /-- Keys, nesting and array lengths are preserved. -/
 theorem structure_preserved (H : Str → Str) (side : Side) (ex : List Str) (d : Json)
     (hwf : wellFormed d = true) : shape (obfuscateBody H side ex d) = shape d :=
